@@ -54,7 +54,7 @@ theorem step_inv {P : Program} (hP : P.WF) {s s' : St} {e : Event}
     · cases h
       rename_i hc
       simp only [Bool.and_eq_true, beq_iff_eq] at hc
-      obtain ⟨⟨hst, hidle⟩, _⟩ := hc
+      obtain ⟨⟨⟨hst, hidle⟩, _⟩, _⟩ := hc
       -- first the dependency filter, then the status change
       have h1 : Inv P { s with mem := s.mem.setRes k { s.mem.res k with deps := (s.mem.res k).deps.filter (fun d => !d.singleUse), sig := (s.mem.res k).sig } } := by
         refine Inv.memDeps (s := s) (k := k) rfl rfl rfl rfl rfl rfl rfl rfl rfl rfl rfl ?_ hi
